@@ -469,12 +469,15 @@ func (r *Run) newCell(fr *Frame, name string, t types.Type) *Cell {
 	return c
 }
 
-func (r *Run) execFunc(fn *ssa.Function, st *State, args []*Val, bind []*Val, depth int, top bool) []Outcome {
+func (r *Run) execFunc(fn *ssa.Function, st *State, args []*Val, bind []*Val, depth int, top bool, parent ...*Frame) []Outcome {
 	if fn.Blocks == nil {
 		r.toolErr("no body for %s", fnName(fn))
 		return nil
 	}
 	fr := &Frame{fn: fn, vals: map[ssa.Value]*Val{}, cellsBy: map[string][]*Cell{}, allocs: map[*ssa.Alloc]*Cell{}, depth: depth, top: top, loopOld: map[*ssa.BasicBlock]string{}, loopPre: map[*ssa.BasicBlock]*State{}}
+	if len(parent) > 0 {
+		fr.parent = parent[0]
+	}
 	for i, p := range fn.Params {
 		if i < len(args) {
 			fr.vals[p] = args[i]
